@@ -71,9 +71,15 @@ fn spec(flat: &Flat, p: usize, cand: &Named) -> Spec {
                 out.violated.insert("UninitializedInfoset".into());
             }
             if tot.is_infinite() {
+                // finite weights whose sum overflows: the profile is still weight / total, with the
+                // total formed after scaling down
                 out.overflow = true;
+                let down = 2.0 * weights[iid].len() as f64;
+                let t2: f64 = weights[iid].iter().map(|w| w / down).sum();
+                out.expected.push(weights[iid].iter().map(|w| (w / down) / t2).collect());
+            } else {
+                out.expected.push(weights[iid].iter().map(|w| w / tot).collect());
             }
-            out.expected.push(weights[iid].iter().map(|w| w / tot).collect());
         }
     }
     out
@@ -357,7 +363,8 @@ pub fn run(ctx: &mut Ctx) {
                     for p in 0..2 {
                         for (i, want) in specs[p].expected.iter().enumerate() {
                             for (k, (w, g)) in want.iter().zip(dense[p][i].iter()).enumerate() {
-                                let ok = (w - g).abs() <= 4.0 * f64::EPSILON * w.abs() || (w.is_nan() && g.is_nan());
+                                // (results in the subnormal range keep few bits: absolute slack there)
+                                let ok = (w - g).abs() <= 4.0 * f64::EPSILON * w.abs() + 1e-305 || (w.is_nan() && g.is_nan());
                                 if !ok || g.is_nan() || *g < 0.0 {
                                     bad = Some((p, i, k, *w, *g));
                                 }
